@@ -5,10 +5,27 @@
 (* driven through the timebase.SystemClock interface                       *)
 (*   base/timebase/sysclk.go        (Epoch, Now, Step, Adjust)             *)
 (* whose Linux implementation (driver/clocks/sysclk_linux.go) increments   *)
-(* its epoch on every Step.  One action, Update, = one call of Do: the     *)
-(* environment advances the clock, possibly bumps the clock epoch          *)
-(* externally, then Do(off, w) runs to completion (Do is sequential and    *)
-(* holds no lock; the clock is read once per call).                        *)
+(* its epoch on every Step.                                                *)
+(*                                                                         *)
+(* Do holds no lock and the clock is shared with whoever else steps it, so *)
+(* one call of Do is a short sequence of actions, one per access to the    *)
+(* clock:                                                                  *)
+(*   DoCall   the environment advances the clock (and may bump its epoch)  *)
+(*            and Do is entered                                            *)
+(*   DoE1     `if l.epoch != l.clk.Epoch()`               (first read)     *)
+(*   DoE2     `l.epoch = l.clk.Epoch(); l.mode = 0`       (second read)    *)
+(*   DoNow    `now := l.clk.Now()`                                         *)
+(*   DoSw     the switch on l.mode up to the log record (no clock access)  *)
+(*            and `l.clk.Step(measured)` or `l.clk.Adjust(p, d, l.i)`      *)
+(*   DoRet    Do returns                                                   *)
+(* and the environment action EnvStep - an external step of the clock:     *)
+(* epoch + 1, the reading jumps forward - may fire between any two of      *)
+(* them (after the nacc-th clock access of the call in progress).  The     *)
+(* arguments of Do are not looked at before DoSw; they are chosen there.   *)
+(*                                                                         *)
+(* Every action is  vars' = F(vars)  for a function F on the record S of   *)
+(* all variables, so that spec/trace/PllTrace.tla can run one whole call   *)
+(* (with the in-call steps where the harness saw them land) in one step.   *)
 (*                                                                         *)
 (* Units.  Time is counted in units of 1/U second (U = 1000: ms) plus an   *)
 (* "era" counter: an era step is a clock advance of >= 2^63 ns, for which  *)
@@ -37,10 +54,17 @@ CONSTANTS
   InitClkEpochs,\* clock epoch at creation of the Pll (Pll.epoch starts at 0)
   MaxLen,       \* bound on the number of updates per history
   RawMags(_),   \* symbolic |a * offset| samples, given the clamp bound
+  Jumps,        \* forward jumps of the reading that come with an external step inside a call (units)
+  StepAt,       \* numbers k of clock accesses of a call after which an external step may land inside it
+  MaxInDo,      \* bound on the number of external steps of a history that land inside a call
   \* switches: FALSE = what pll.go does (since the repairs 3830eca, 3f0dd14),
   \* TRUE = the earlier behaviour, kept so that TLC can show what it breaks
   StepUsesDoubleInv,  \* Step(Inv(Inv(off))): MinInt64 came back as MinInt64+1
-  DurationWraps       \* timemath.Duration(ceil(dt)) overflowed int64 when Sub saturated
+  DurationWraps,      \* timemath.Duration(ceil(dt)) overflowed int64 when Sub saturated
+  \* switch: FALSE = the order of pll.go (Epoch() is read before Now());
+  \* TRUE = Now() is read first (not the code: kept so that TLC can show that
+  \* the property section fails on it when a step lands between the two)
+  ReadsNowFirst
 
 OffMin == -OffMax - 1
 
@@ -79,45 +103,105 @@ Clamp(p, b) == IF p > b THEN b ELSE IF p < -b THEN -b ELSE p
 DurOf(d) == IF d >= SatSecs THEN (IF DurationWraps THEN NegDur ELSE SatSecs - 1) ELSE d
 
 NoAct == [k |-> "none", x |-> 0, p |-> 0, d |-> 0, ffin |-> TRUE]
+Last(q) == q[Len(q)]
 
 VARIABLES
   mode, epoch, t0, t,      \* Pll.mode, Pll.epoch, Pll.t0, Pll.t
   now, clkEpoch,           \* the clock: reading, epoch
   estart,                  \* clock side: reading at which the current clock epoch began
+  pc,                      \* control point of Do: "idle" | "e1" | "e2" | "now" | "sw" | "act" | "ret"
+  nacc,                    \* clock accesses (Epoch, Now, Step, Adjust) made so far by the call in progress
+  rnow,                    \* the local `now`: what Now() returned to the call in progress
+  pend,                    \* the actuation call the switch decided on, not yet made
+  cur,                     \* the call in progress: environment inputs, arguments, mode at entry, epoch change observed
+  stp,                     \* external steps that landed inside the call in progress: sequence of [k, j]
+                           \*   (after k clock accesses of this call, the reading jumped by j)
+  nin,                     \* external steps inside calls so far (bound)
+  nowIn, esIn,             \* clock side: reading / start of the clock epoch when the call in progress was entered
+  prevLo,                  \* clock side: reading when the previous call was entered
   act,                     \* the actuation call made by the last update
   lastIn,                  \* the last update's inputs and pre-state facts
   hist                     \* history of updates (inputs and expected outputs)
 
-vars == <<mode, epoch, t0, t, now, clkEpoch, estart, act, lastIn, hist>>
+vars == <<mode, epoch, t0, t, now, clkEpoch, estart, pc, nacc, rnow, pend, cur, stp, nin,
+          nowIn, esIn, prevLo, act, lastIn, hist>>
 
-NoIn == [off |-> 0, w |-> 0, modeB |-> 0, obs |-> FALSE, since |-> 0, dt |-> 0]
+NoIn == [off |-> 0, w |-> 0, modeB |-> 0, obs |-> FALSE, since |-> 0, sinceIn |-> 0, dt |-> 0]
+NoCur == [adv |-> 0, sat |-> FALSE, bump |-> FALSE, off |-> 0, w |-> 0, modeB |-> 0, obs |-> FALSE, gc |-> "none"]
+
+\* all variables as one record, and back
+S == [mode |-> mode, epoch |-> epoch, t0 |-> t0, t |-> t, now |-> now, clkEpoch |-> clkEpoch,
+      estart |-> estart, pc |-> pc, nacc |-> nacc, rnow |-> rnow, pend |-> pend, cur |-> cur,
+      stp |-> stp, nin |-> nin, nowIn |-> nowIn, esIn |-> esIn, prevLo |-> prevLo,
+      act |-> act, lastIn |-> lastIn, hist |-> hist]
+Set(s) ==
+  /\ mode' = s.mode /\ epoch' = s.epoch /\ t0' = s.t0 /\ t' = s.t /\ now' = s.now
+  /\ clkEpoch' = s.clkEpoch /\ estart' = s.estart /\ pc' = s.pc /\ nacc' = s.nacc
+  /\ rnow' = s.rnow /\ pend' = s.pend /\ cur' = s.cur /\ stp' = s.stp /\ nin' = s.nin
+  /\ nowIn' = s.nowIn /\ esIn' = s.esIn /\ prevLo' = s.prevLo
+  /\ act' = s.act /\ lastIn' = s.lastIn /\ hist' = s.hist
+
+S0(c0) == [mode |-> 0, epoch |-> 0, t0 |-> Time0, t |-> Time0, now |-> Time0, clkEpoch |-> c0,
+           estart |-> Time0, pc |-> "idle", nacc |-> 0, rnow |-> Time0, pend |-> NoAct, cur |-> NoCur,
+           stp |-> << >>, nin |-> 0, nowIn |-> Time0, esIn |-> Time0, prevLo |-> Time0,
+           act |-> NoAct, lastIn |-> NoIn, hist |-> << >>]
 
 Init ==
-  /\ mode = 0 /\ epoch = 0
-  /\ t0 = Time0 /\ t = Time0 /\ now = Time0
-  /\ clkEpoch \in InitClkEpochs
-  /\ estart = Time0
+  /\ mode = 0 /\ epoch = 0 /\ t0 = Time0 /\ t = Time0 /\ now = Time0
+  /\ clkEpoch \in InitClkEpochs /\ estart = Time0
+  /\ pc = "idle" /\ nacc = 0 /\ rnow = Time0 /\ pend = NoAct /\ cur = NoCur /\ stp = << >> /\ nin = 0
+  /\ nowIn = Time0 /\ esIn = Time0 /\ prevLo = Time0
   /\ act = NoAct /\ lastIn = NoIn /\ hist = << >>
 
+\* order of the reads
+AfterCall  == IF ReadsNowFirst THEN "now" ELSE "e1"
+AfterEpoch == IF ReadsNowFirst THEN "sw" ELSE "now"     \* after the last Epoch() read of the call
+AfterNow   == IF ReadsNowFirst THEN "e1" ELSE "sw"
+
 (***************************************************************************)
-(* One call Do(in.off, in.w) after the clock advanced by in.adv (or an era *)
-(* if in.sat) and, if in.bump, the clock epoch was bumped externally at    *)
-(* the new reading.  raw is the symbolic proportional term.  The panics on  *)
-(* mdt < 0 / dt < 0 cannot happen: readings are non-decreasing.            *)
+(* Do is entered after the clock advanced by in.adv (or an era if in.sat)  *)
+(* and, if in.bump, the clock epoch was bumped externally at the new       *)
+(* reading.                                                                *)
 (***************************************************************************)
-Do(in, raw) ==
-  LET now1    == TAdd(now, in.adv, in.sat)
-      ce1     == IF in.bump THEN clkEpoch + 1 ELSE clkEpoch
-      es1     == IF in.bump THEN now1 ELSE estart
-      offset  == Inv(in.off)                    \* offset = timemath.Inv(offset)
-      changed == epoch # ce1                    \* l.epoch != l.clk.Epoch()
-      m       == IF changed THEN 0 ELSE mode    \*   l.mode = 0
-      mdt     == TSub(now1, t0)
-      dt      == TSub(now1, t)
+FCall(s, in) ==
+  LET now1 == TAdd(s.now, in.adv, in.sat)
+      ce1  == IF in.bump THEN s.clkEpoch + 1 ELSE s.clkEpoch
+      es1  == IF in.bump THEN now1 ELSE s.estart
+  IN [s EXCEPT !.now = now1, !.clkEpoch = ce1, !.estart = es1,
+               !.pc = AfterCall, !.nacc = 0, !.stp = << >>, !.pend = NoAct,
+               !.cur = [NoCur EXCEPT !.adv = in.adv, !.sat = in.sat, !.bump = in.bump, !.modeB = s.mode],
+               !.prevLo = s.nowIn, !.nowIn = now1, !.esIn = es1,
+               !.act = NoAct, !.lastIn = NoIn]
+
+\* if l.epoch != l.clk.Epoch()
+FE1(s) ==
+  LET changed == s.epoch # s.clkEpoch
+  IN [s EXCEPT !.nacc = @ + 1, !.cur.obs = changed, !.pc = IF changed THEN "e2" ELSE AfterEpoch]
+
+\* { l.epoch = l.clk.Epoch(); l.mode = 0 }
+FE2(s) == [s EXCEPT !.nacc = @ + 1, !.epoch = s.clkEpoch, !.mode = 0, !.pc = AfterEpoch]
+
+\* now := l.clk.Now()
+FNow(s) == [s EXCEPT !.nacc = @ + 1, !.rnow = s.now, !.pc = AfterNow]
+
+\* clock-side facts about a call made at this moment
+Facts(s, li) == [li EXCEPT !.since = TSub(s.now, s.estart), !.sinceIn = TSub(s.now, s.esIn),
+                           !.dt = TSub(s.now, s.prevLo)]
+
+(***************************************************************************)
+(* The switch on l.mode for the arguments (off, w); raw is the symbolic    *)
+(* proportional term.  The panics on mdt < 0 / dt < 0 cannot happen:       *)
+(* readings are non-decreasing.                                            *)
+(***************************************************************************)
+FSw(s, off, w, raw) ==
+  LET offset  == Inv(off)                       \* offset = timemath.Inv(offset)
+      m       == s.mode
+      mdt     == TSub(s.rnow, s.t0)
+      dt      == TSub(s.rnow, s.t)
       \* case 1: awaiting step
-      fire1   == m = 1 /\ mdt > 2 * U /\ WGt(in.w, 3)   \* weight > 3 (false for NaN)
+      fire1   == m = 1 /\ mdt > 2 * U /\ WGt(w, 3)     \* weight > 3 (false for NaN)
       step    == fire1 /\ GoAbs(offset) > OneMs
-      stepx   == IF StepUsesDoubleInv THEN Inv(offset) ELSE in.off
+      stepx   == IF StepUsesDoubleInv THEN Inv(offset) ELSE off
       \* case 2: awaiting PLL
       fire2   == m = 2 /\ mdt > 6 * U
       \* case 3: tracking.  The gains (a, b) are picked by weight class (< 50,
@@ -127,63 +211,133 @@ Do(in, raw) ==
       d       == IF m = 3 THEN CeilSecs(dt) ELSE 0
       p       == IF m = 3 THEN Clamp(raw, PB * d) ELSE 0
       m2      == IF m = 0 \/ fire1 \/ fire2 THEN m + 1 ELSE m
-  IN
-  /\ now' = now1
-  /\ epoch' = ce1
-  /\ mode' = m2
-  /\ t0' = IF m = 0 \/ fire1 \/ fire2 THEN now1 ELSE t0
-  /\ t' = now1
-  /\ act' = IF step THEN [k |-> "step", x |-> stepx, p |-> 0, d |-> 0, ffin |-> TRUE]
-            ELSE IF d > 0 THEN [k |-> "adjust", x |-> 0, p |-> p, d |-> DurOf(d), ffin |-> TRUE]
-            ELSE NoAct
-  \* the clock's Step increments its epoch (sysclk_linux.go)
-  /\ clkEpoch' = IF step THEN ce1 + 1 ELSE ce1
-  /\ estart' = IF step THEN now1 ELSE es1
-  /\ lastIn' = [off |-> in.off, w |-> in.w, modeB |-> mode, obs |-> changed,
-                since |-> TSub(now1, es1), dt |-> TSub(now1, now)]
-  /\ hist' = Append(hist, [adv |-> in.adv, sat |-> in.sat, bump |-> in.bump, off |-> in.off, w |-> in.w,
-                           mode |-> m2, gc |-> IF m = 3 THEN GainClass(in.w) ELSE "none",
-                           k |-> IF step THEN "step" ELSE IF d > 0 THEN "adjust" ELSE "none",
-                           x |-> IF step THEN stepx ELSE 0,
-                           d |-> IF d > 0 /\ ~step THEN DurOf(d) ELSE 0])
+      call    == IF step THEN [k |-> "step", x |-> stepx, p |-> 0, d |-> 0, ffin |-> TRUE]
+                 ELSE IF d > 0 THEN [k |-> "adjust", x |-> 0, p |-> p, d |-> DurOf(d), ffin |-> TRUE]
+                 ELSE NoAct
+      li      == [NoIn EXCEPT !.off = off, !.w = w, !.modeB = s.cur.modeB, !.obs = s.cur.obs]
+  IN [s EXCEPT !.mode = m2,
+               !.t0 = IF m = 0 \/ fire1 \/ fire2 THEN s.rnow ELSE s.t0,
+               !.t = s.rnow,
+               !.pend = call,
+               !.cur = [s.cur EXCEPT !.off = off, !.w = w, !.gc = IF m = 3 THEN GainClass(w) ELSE "none"],
+               !.lastIn = Facts(s, li),
+               !.pc = IF call.k = "none" THEN "ret" ELSE "act"]
 
-\* bound of the clamp that applies to input in (0 outside tracking)
-BoundFor(in) ==
-  LET now1 == TAdd(now, in.adv, in.sat)
-      ce1  == IF in.bump THEN clkEpoch + 1 ELSE clkEpoch
-  IN IF epoch = ce1 /\ mode = 3 THEN PB * CeilSecs(TSub(now1, t)) ELSE 0
+\* l.clk.Step(measured) / l.clk.Adjust(p, d, l.i); the clock's Step increments
+\* its epoch (sysclk_linux.go)
+FAct(s) ==
+  LET step == s.pend.k = "step"
+  IN [s EXCEPT !.nacc = @ + 1, !.act = s.pend, !.pend = NoAct,
+               !.lastIn = Facts(s, s.lastIn),
+               !.clkEpoch = IF step THEN @ + 1 ELSE @,
+               !.estart = IF step THEN s.now ELSE @,
+               !.pc = "ret"]
 
-Raws(in) ==
-  LET b == BoundFor(in)
-  IN IF b = 0 \/ in.off = 0 THEN {0} ELSE {Sgn(in.off) * r : r \in RawMags(b)}
+FRet(s) ==
+  [s EXCEPT !.pc = "idle",
+            !.hist = Append(@, [adv |-> s.cur.adv, sat |-> s.cur.sat, bump |-> s.cur.bump,
+                                off |-> s.cur.off, w |-> s.cur.w, st |-> s.stp,
+                                mode |-> s.mode, gc |-> s.cur.gc,
+                                k |-> s.act.k, x |-> IF s.act.k = "step" THEN s.act.x ELSE 0,
+                                d |-> IF s.act.k = "adjust" THEN s.act.d ELSE 0])]
 
-Update ==
-  /\ Len(hist) < MaxLen
-  /\ \E bi \in 1 .. BumpDen, adv \in Advs \cup (IF AllowSat THEN {-1} ELSE {}), off \in Offs, w \in Weights :
-       LET in == [adv |-> IF adv < 0 THEN 0 ELSE adv, sat |-> adv < 0, bump |-> bi = 1, off |-> off, w |-> w]
-       IN \E raw \in Raws(in) : Do(in, raw)
+\* the clock is stepped by somebody else while a call is in progress: its epoch
+\* is incremented and its reading jumps forward by j
+FEnv(s, j) ==
+  LET now1 == TAdd(s.now, j, FALSE)
+  IN [s EXCEPT !.clkEpoch = @ + 1, !.now = now1, !.estart = now1,
+               !.stp = Append(@, [k |-> s.nacc, j |-> j]), !.nin = @ + 1]
 
-Next == Update
+\* bound of the clamp at the switch (0 outside tracking)
+BoundAt(s) == IF s.mode = 3 THEN PB * CeilSecs(TSub(s.rnow, s.t)) ELSE 0
+Raws(s, off) ==
+  LET b == BoundAt(s)
+  IN IF b = 0 \/ off = 0 THEN {0} ELSE {Sgn(off) * r : r \in RawMags(b)}
+
+DoCall ==
+  /\ pc = "idle" /\ Len(hist) < MaxLen
+  /\ \E bi \in 1 .. BumpDen, adv \in Advs \cup (IF AllowSat THEN {-1} ELSE {}) :
+       Set(FCall(S, [adv |-> IF adv < 0 THEN 0 ELSE adv, sat |-> adv < 0, bump |-> bi = 1]))
+DoE1  == pc = "e1" /\ Set(FE1(S))
+DoE2  == pc = "e2" /\ Set(FE2(S))
+DoNow == pc = "now" /\ Set(FNow(S))
+\* The switch and the call it decides on are one transition (nothing is read
+\* in between), in two variants: the call follows at once, or an external step
+\* lands between the switch and the call.
+EnvOK(s) ==
+  /\ s.nacc \in StepAt
+  /\ (IF s.stp = << >> THEN TRUE ELSE Last(s.stp).k # s.nacc)
+  /\ s.nin < MaxInDo
+SwThenAct(s1) == Set(IF s1.pc = "act" THEN FAct(s1) ELSE s1)
+SwStepAct(s1) == s1.pc = "act" /\ EnvOK(s1) /\ \E j \in Jumps : Set(FAct(FEnv(s1, j)))
+DoSw  == pc = "sw" /\ \E off \in Offs, w \in Weights : \E raw \in Raws(S, off) :
+           SwThenAct(FSw(S, off, w, raw)) \/ SwStepAct(FSw(S, off, w, raw))
+DoRet == pc = "ret" /\ Set(FRet(S))
+\* an external step inside the call: between two clock accesses, or after the
+\* last one (two steps at one place: nothing the Pll can tell from one)
+EnvEnabled == pc \in {"e1", "e2", "now", "ret"} /\ EnvOK(S)
+EnvStep == EnvEnabled /\ \E j \in Jumps : Set(FEnv(S, j))
+
+Next == DoCall \/ DoE1 \/ DoE2 \/ DoNow \/ DoSw \/ DoRet \/ EnvStep
 Spec == Init /\ [][Next]_vars
+
+(***************************************************************************)
+(* One whole call as a function (for the trace specification): the call    *)
+(* in = [adv, sat, bump, off, w] with the symbolic term raw, the external  *)
+(* steps ks = << [k, j], ... >> landing after k clock accesses (those      *)
+(* whose place the call does not reach land after its last access).        *)
+(***************************************************************************)
+RECURSIVE Run(_, _, _, _, _)
+Run(s, in, raw, ks, fuel) ==
+  IF s.pc = "idle" \/ fuel = 0 THEN s
+  ELSE IF ks # << >> /\ s.pc # "sw" /\ (ks[1].k <= s.nacc \/ s.pc = "ret")
+       THEN Run(FEnv(s, ks[1].j), in, raw, Tail(ks), fuel - 1)
+  ELSE Run(CASE s.pc = "e1"  -> FE1(s)
+             [] s.pc = "e2"  -> FE2(s)
+             [] s.pc = "now" -> FNow(s)
+             [] s.pc = "sw"  -> FSw(s, in.off, in.w, raw)
+             [] s.pc = "act" -> FAct(s)
+             [] s.pc = "ret" -> FRet(s), in, raw, ks, fuel - 1)
+RunCall(s, in, raw, ks) == Run(FCall(s, in), in, raw, ks, 32)
 
 TypeOK ==
   /\ mode \in 0 .. 3
   /\ act.k \in {"none", "step", "adjust"}
+  /\ pc \in {"idle", "e1", "e2", "now", "sw", "act", "ret"}
   /\ clkEpoch >= epoch
 
 (***************************************************************************)
 (* Property section (C19).  Every clause is a predicate of the actuation   *)
-(* call a, of the facts li about the update that made it (measured offset  *)
-(* off, weight w, mode at entry modeB, obs = an epoch change was observed  *)
-(* through clk.Epoch() on this call, since = time since the current clock  *)
-(* epoch began, dt = time since the previous update) and of the mode m     *)
-(* after the update.  The same predicates are evaluated by                 *)
+(* call a, of the facts li about the update that made it and of the mode m *)
+(* after the update:                                                       *)
+(*   off, w    measured offset, weight                                     *)
+(*   modeB     mode when the update was called                             *)
+(*   obs       an epoch change was observed through clk.Epoch() on this    *)
+(*             call (a read returned another value than the read before)   *)
+(*   since     reading of the clock when a is made minus the reading at    *)
+(*             which the clock epoch current at that moment began          *)
+(*   sinceIn   the same reading minus the reading at which the clock epoch *)
+(*             began that was current when the update was called           *)
+(*   dt        the same reading minus the reading when the previous update *)
+(*             was called                                                  *)
+(* All of them are the clock's own (the environment's timeline), not what  *)
+(* the Pll believes.  The same predicates are evaluated by                 *)
 (* spec/trace/PllTrace.tla on the calls recorded from the real Pll.        *)
+(*                                                                         *)
+(* External steps inside a call.  An update is called in one clock epoch   *)
+(* and may make its actuation call in a later one (the clock was stepped   *)
+(* in between).  "The current clock epoch" then has two readings for that  *)
+(* one update - the epoch of the call of the update, the epoch of the call *)
+(* it makes - and the statement does not choose: the wait holds if it      *)
+(* holds in either (since / sinceIn; without a step in between they are    *)
+(* the same number).  Every later update has one reading only.  Likewise   *)
+(* "the elapsed seconds per update" count from the earliest reading of the *)
+(* previous update to the reading at which the adjustment is asked for.    *)
 (***************************************************************************)
 \* steps only while awaiting the initial step ...
 StepModeP(a, li)   == a.k = "step" => (li.modeB = 1 /\ ~li.obs)
 \* ... more than 2 s after the start of the current clock epoch ...
-StepWaitP(a, li)   == a.k = "step" => li.since > 2 * U
+StepWaitP(a, li)   == a.k = "step" => (li.since > 2 * U \/ li.sinceIn > 2 * U)
 \* ... measurement weight above 3 (NaN is not above 3) ...
 StepWeightP(a, li) == a.k = "step" => WGt(li.w, 3)
 \* ... offset above 1 ms ...
@@ -213,16 +367,21 @@ EpochRestarts     == EpochRestartsP(act, lastIn, mode)
 \* the same as one action property (every update's call satisfies every clause)
 C19Holds == StepOnlyInStartup /\ TrackingOnlySlews /\ SlewBound /\ PositiveDuration /\ FiniteFrequency /\ EpochRestarts
 C19Step  == [][C19Holds']_vars
+\* the wait clause alone (self-test with ReadsNowFirst)
+StepWait == StepWaitP(act, lastIn)
+C19WaitStep == [][StepWait']_vars
 
 (***************************************************************************)
 (* Lemmas about the implementation state (spec only; they explain why the  *)
-(* property holds: the Pll's own t0 is never before the epoch start it is  *)
-(* waiting on, and is reset by every observed epoch change).               *)
+(* property holds: between calls the Pll's own t0 is never before the      *)
+(* start of the epoch it believes to be in - Epoch() is read before Now() - *)
+(* and t0 is reset by every observed epoch change).                        *)
 (***************************************************************************)
-WaitAnchored == (mode \in {1, 2, 3} /\ epoch = clkEpoch) => TSub(now, t0) <= TSub(now, estart)
-RestartResetsT0 == lastIn.obs => (t0 = now /\ mode = 1)
-AlwaysStamped == hist # << >> => t = now
-OneEpochAhead == hist # << >> => (clkEpoch \in {epoch, epoch + 1} /\ (clkEpoch # epoch <=> act.k = "step"))
+WaitAnchored == (pc = "idle" /\ mode \in {1, 2, 3} /\ epoch = clkEpoch) => TSub(now, t0) <= TSub(now, estart)
+RestartResetsT0 == (pc = "ret" /\ lastIn.obs) => (t0 = rnow /\ mode = 1)
+AlwaysStamped == (pc = "idle" /\ hist # << >>) => t = rnow
+OneEpochAhead == (pc = "idle" /\ hist # << >> /\ Last(hist).st = << >>) =>
+                   (clkEpoch \in {epoch, epoch + 1} /\ (clkEpoch # epoch <=> act.k = "step"))
 Lemmas == WaitAnchored /\ RestartResetsT0 /\ AlwaysStamped /\ OneEpochAhead
 LemmaStep == [][Lemmas']_vars
 =============================================================================
